@@ -201,7 +201,7 @@ OracleOK(e, lm, o, cfg) ==
   /\ (~cfg.lfe /\ (cfg.hybrid \/ o.transient = 1 \/ cfg.cx < 3)) => o.td = e.td
   /\ (~cfg.lfe /\ cfg.hybrid) => o.sd \in {2, IF cfg.cx = 0 THEN 0 ELSE IF o.transient = 1 THEN 2 ELSE 3}
   /\ (~cfg.lfe /\ ~cfg.hybrid /\ (o.transient = 1 \/ cfg.cx < 3)) => o.sd \in {2, IF cfg.cx = 0 THEN 0 ELSE 2}
-  /\ (cfg.C = 1 => o.ity = e.ity) /\ (cfg.C = 2 => o.ity \in 0..NbEBands)
+  /\ (cfg.C = 1 => o.ity = 0) /\ (cfg.C = 2 => o.ity \in 0..NbEBands)       \* (rate.c interp_bits2pulses writes *intensity: 0 for mono)
   /\ o.vr >= 0
 
 \* the constrained-VBR bucket, transcribed (celt_encoder.c:2321-2370); b = nbAvailableBytes chosen before the reservoir is updated
